@@ -9,6 +9,7 @@ package main
 // and the verdict must be the spec's `accept` in every case.
 
 import (
+	"encoding/json"
 	"fmt"
 	"math/big"
 
@@ -19,11 +20,24 @@ import (
 type idxClass struct {
 	Cls string `json:"cls"`
 	Off int    `json:"off"`
+	Val string `json:"val"`
+}
+
+// MTB.tla exports index CLASSES ({cls, off}, tiny-field model), MTBBig.tla exports the concrete natural as a decimal string
+func (c *idxClass) UnmarshalJSON(b []byte) error {
+	if len(b) > 0 && b[0] == '"' {
+		c.Cls = "dec"
+		return json.Unmarshal(b, &c.Val)
+	}
+	type plain idxClass
+	return json.Unmarshal(b, (*plain)(c))
 }
 
 func (c idxClass) value() *big.Int {
 	two32 := new(big.Int).Lsh(big.NewInt(1), 32)
 	switch c.Cls {
+	case "dec":
+		return bigOf(c.Val)
 	case "abs":
 		return big.NewInt(int64(c.Off))
 	case "idxmax":
